@@ -121,11 +121,21 @@ def run(repo, chk):
         if not op:
             chk.fail('C05.G4', 'arith_op_reg_arg::path without operation', 'no arith_map instruction emitted', GEN)
             continue
-        divmod = [t for t, v in conds.items() if 'ast.Div' in t and 'ast.Mod' in t]
-        if not divmod:
-            chk.fail('C05.G4', 'arith_op_reg_arg::Div/Mod test', 'cannot find the `op_type in {ast.Div, ast.Mod}` decision', GEN)
+        # which operators can take this path: every decision that depends on op_type alone is evaluated for each
+        # operator class of arith_map (module-level names such as a set of division operators are resolved by
+        # interpreting the module)
+        feasible = _operators_on_path(gf, ev)
+        div_ops = {k for k in feasible if k in ('ast.Div', 'ast.Mod')}
+        if not feasible:
+            continue            # no operator reaches this path
+        if conds.get('self.unchecked') is True and div_ops != feasible:
+            continue            # unchecked build: nothing has to separate the operators
+        if div_ops and div_ops != feasible:
+            chk.fail('C05.G4', 'arith_op_reg_arg::Div/Mod test', f'a path is shared by {sorted(div_ops)} and {sorted(feasible - div_ops)}: '
+                     'no decision separates the faulting operators from the others', GEN)
             continue
-        is_div = conds[divmod[0]]
+        is_div = bool(div_ops)
+        divmod = ['<operator class>']
         checked = conds.get('self.unchecked') is False
         forms, _ = F.Classifier(gf, 'arith_op_reg_arg', ev).run()
         sk = [f for f in forms if f.form == 'skip']
@@ -261,6 +271,7 @@ def run(repo, chk):
                        'the length sanity guard must precede size computation and the space guard', GEN)
             if okl:
                 cls, ln, mx = canon(length[0].cond_kind[1], *length[0].cond_args)
+                mx = _efg.expand(ev, length[0].events_idx[1], mx, keep=('length',))
                 chk.expect(ln == 'length' and 'expr.type.el_type' in mx, 'C05.G5', 'eval_expr[ArrayInitializer]::length operand',
                            f'length guard compares {ln} with {mx}', GEN)
     chk.floor('array-initializer checked paths', n_ai, 2)
@@ -319,6 +330,43 @@ def run(repo, chk):
     chk.not_decided = ['that the VM raises flags in program order (Sphinx semantics)']
 
 
+def _operators_on_path(gf, ev):
+    """Keys of arith_map (as 'ast.X' texts) for which every decision on this path that depends only on `op_type`
+    evaluates to the recorded truth."""
+    from ..consteval import Env
+    ns = gf.module_ns()
+    it = gf.repo.__dict__['_gen_ns']['it']
+    astv = ns.get('ast')
+    out = set()
+    for key in gf.arith_map:
+        cls = getattr(astv, key.split('.', 1)[1], None)
+        if cls is None:
+            raise AnalysisError(f'arith_map key {key} is not a class of hidc.ast')
+        ok = True
+        for idx, e in enumerate(ev):
+            if e.kind != 'cond' or e.node is None:
+                continue
+            try:
+                node = ast.parse(_efg.expand(ev, idx, e.node, keep=('op_type',)), mode='eval').body
+            except SyntaxError:
+                continue
+            names = {n.id for n in ast.walk(node) if isinstance(n, ast.Name)}
+            if 'op_type' not in names or 'self' in names or any(isinstance(n, (ast.Yield, ast.YieldFrom, ast.NamedExpr)) for n in ast.walk(node)):
+                continue
+            if not names - {'op_type'} <= set(ns):
+                continue
+            try:
+                v = bool(it.eval(node, Env(ns, {'op_type': cls})))
+            except Exception:      # noqa: BLE001
+                continue
+            if v != e.truth:
+                ok = False
+                break
+        if ok:
+            out.add(key)
+    return out
+
+
 def _typechecker_keeps_checks(repo, chk):
     """G6: an index operation with compile-time operands is either kept for the run-time bounds check or folded
     to exactly the element it denotes - never folded for an index outside 0..length-1 (Python's negative indices
@@ -366,42 +414,75 @@ def _typechecker_keeps_checks(repo, chk):
 
 def _length_guard_classification(repo, chk, gf):
     """The length sanity guard is skipped for element classes X; for each such class the size function must be
-    the identity on the length (otherwise a negative length can round to a small size)."""
+    the identity on the length (otherwise a negative length can round to a small size).
+
+    Decided on the emission paths, however the decision is spelled (inline `if`, a helper, a named flag): for each
+    element type, the paths of the ArrayInitializer arm that are feasible for that type in a checked build (every
+    decision on the path that can be evaluated for that type agrees with it) either all carry the length guard or
+    none does."""
     it = Interp(repo)
     tok = it.load('hidc/lexer/tokens.py')
     DT = tok['DataType']
-    # condition under which the guard is emitted, read from the source
-    fn = gf.methods['eval_expr']
-    cond = None
-    for n in ast.walk(fn):
-        if isinstance(n, ast.If) and 'safe_length' in ' '.join(src(s) for s in n.body):
-            cond = n.test
-    if cond is None:
-        chk.fail('C05.G4', 'eval_expr[ArrayInitializer]::length guard condition', 'not found', GEN)
-        return
-    from ..consteval import Env
+    from ..consteval import Env, _ModuleView
+    astns = it.load('hidc/ast/__init__.py')
 
     class _S:
         pass
+    paths = []
+    for p, ev in gf.inlined('eval_expr'):
+        if not F.arm_of(ev, len(ev) - 1).startswith('ArrayInitializer') or p.outcome == 'raise':
+            continue
+        forms, _ = F.Classifier(gf, 'eval_expr', ev).run()
+        has_guard = False
+        for f in forms:
+            if f.form == 'skip' and f.cond_kind and f.cond_kind[0] == 'cls':
+                cls, a, b = canon(f.cond_kind[1], *(f.cond_args if len(f.cond_args) == 2 else ('?', '?')))
+                if cls == 'Hleu' and b.startswith('asm.IntLiteral(self.max_length('):
+                    has_guard = True
+        paths.append((ev, has_guard))
+    if not paths:
+        chk.fail('C05.G4', 'eval_expr[ArrayInitializer]::length guard condition', 'no emission path of the array-initializer arm found', GEN)
+        return
     for dt in (DT.INT, DT.BOOL, DT.BYTE, DT.STRING):
         s = _S()
         s.unchecked = False
         expr = _S()
         expr.type = _S()
         expr.type.el_type = dt
-        try:
-            from ..consteval import _ModuleView
-            astns = it.load('hidc/ast/__init__.py')
-            g = {'DataType': DT, 'ArrayType': astns['ArrayType'], 'ast': _ModuleView(astns)}
-            guarded = bool(it.eval(cond, Env(g, {'self': s, 'expr': expr})))
-        except Exception as e:
-            raise AnalysisError(f'cannot evaluate length-guard condition `{src(cond)}`: {e}')
+        expr.type.const = False
+        g = {'DataType': DT, 'ArrayType': astns['ArrayType'], 'ast': _ModuleView(astns)}
+        verdicts = set()
+        for ev, has_guard in paths:
+            feasible = True
+            for idx, e in enumerate(ev):
+                if e.kind != 'cond' or e.node is None:
+                    continue
+                try:
+                    node = ast.parse(_efg.expand(ev, idx, e.node), mode='eval').body
+                except SyntaxError:
+                    continue
+                names = {n.id for n in ast.walk(node) if isinstance(n, ast.Name)}
+                if not names <= {'self', 'expr', 'DataType', 'ArrayType', 'ast'} or any(isinstance(n, (ast.Yield, ast.YieldFrom, ast.Call))
+                                                                                        for n in ast.walk(node)):
+                    continue
+                try:
+                    v = bool(it.eval(node, Env(g, {'self': s, 'expr': expr})))
+                except Exception:      # noqa: BLE001 - a decision about something else (registers, bubbles): unconstraining
+                    continue
+                if v != e.truth:
+                    feasible = False
+                    break
+            if feasible:
+                verdicts.add(has_guard)
+        if not verdicts:
+            raise AnalysisError(f'length guard: no feasible checked path of the array-initializer arm for element type {dt}')
+        guarded = verdicts == {True}
         # size function: array_size(data_type, length) read structurally: BOOL -> (n+7)>>3, else n*frame_size
         identity = dt.byte_sized and dt != DT.BOOL
         chk.expect(guarded or identity, 'C05.G4', f'length guard for {dt.value}[]',
-                   f'the length sanity guard is skipped for {dt.value} arrays although their size function '
-                   f'{"(n+7)>>3" if dt == DT.BOOL else "n*w"} is not the identity: a negative length can pass the space guard',
-                   GEN, cond.lineno)
+                   f'the length sanity guard is {"skipped" if verdicts == {False} else "not emitted on every path"} for {dt.value} arrays '
+                   f'although their size function {"(n+7)>>3" if dt == DT.BOOL else "n*w"} is not the identity: a negative length can pass '
+                   'the space guard', GEN)
 
 
 def _preemptive(repo, chk, gf):
